@@ -38,10 +38,7 @@ theorem invertOp_ne : invertOp? "!=" = some "==" := by decide
 /-- the string fragment with quotable values -/
 def InvStrLeaf (E : Env) : Leaf → Prop := StrLeafW (fun n => n ∈ plainStringVars) QuotableValue E
 
-theorem startOk_head {v : String} (h : PlainValue v) : v.toList.head? ≠ some '=' := by
-  intro e
-  have := (h.2 '=' e).2.2.2.2.1
-  revert this; decide
+theorem startOk_head {v : String} (h : PlainValue v) : v.toList.head? ≠ some '=' := h.2
 
 /-- **inverting a `SingleMarker` of the string fragment**: the result is the leaf with the flipped operator,
 again in the fragment, true exactly where the operand is false -/
